@@ -2,7 +2,7 @@
 import os
 import vf
 
-MODEL_VOS = ["Base/Conv.vo", "DD/Table.vo", "DD/Sem.vo"]
+MODEL_VOS = ["Base/Conv.vo", "DD/Table.vo", "DD/TableExtra.vo", "DD/Sem.vo"]
 DRIVER_EXTRA = ["dd_types.ml", "order.ml", "zchain.ml", "pick.ml"]
 
 
